@@ -41,7 +41,8 @@ def generate(tier, rng):
                         k += 1
                         if tier == "quick" and k % 2 and extra:
                             continue
-                        cases.append(dict(stream="exact", grid=grid, gname=gname, extra=extra, lifetime=dict(lt, inflow_at=at, n_pts=npts)))
+                        cases.append(dict(stream="exact", grid=grid, gname=gname, extra=extra, lifetime=dict(lt, inflow_at=at, n_pts=npts),
+                                          time_letter=("y" if k % 5 == 0 else "t")))
             # oracle-only: higher quadrature orders, real distributions
             for npts in (3, 4, 5, 6, 7, 8, 9, 10, 11):
                 k += 1
@@ -76,7 +77,7 @@ def generate(tier, rng):
 
 def run_impl(case):
     try:
-        dims = sd.mk_dims(case["grid"], case["extra"])
+        dims = sd.mk_dims(case["grid"], case["extra"], case.get("time_letter", "t"))
         lm = sd.mk_lifetime(case, dims)
         sf, pdf = lm.sf, lm.pdf
     except Exception as e:  # noqa
